@@ -90,7 +90,7 @@ func (this *Item) action(sym string, nextState int) action.Action {
 }
 
 func (this *Item) canRecover() bool {
-	return this.Len > 0 && this.Body[0] == "error"
+	return this.Pos == 0 && this.Len > 0 && this.Body[0] == "error"
 }
 
 // Equals weturns whether two Items are equal based on their ProdIdx, Pos and NextToken.
